@@ -22,7 +22,7 @@ PY_INFRA = {"json", "dataclass", "field", "ClassVar", "Dict", "List", "Union", "
 
 def h_names(text):
     out = {"struct": set(), "typedef": set(), "macro": set(), "function": set()}
-    for line in text.splitlines():
+    for line in text.split("\n"):
         m = re.match(r"struct (\w+) \{", line)
         if m:
             out["struct"].add(m.group(1))
@@ -41,7 +41,7 @@ def h_names(text):
 def struct_fields(text):
     """{struct name: [field names]} from the header text."""
     out, cur = {}, None
-    for line in text.splitlines():
+    for line in text.split("\n"):
         m = re.match(r"struct (\w+) \{", line)
         if m:
             cur = m.group(1)
